@@ -270,12 +270,19 @@ class Custom:
                 if isinstance(data, cls):
                     return data
                 raise VE("no")
+            if self.mode["v"] == "unhashable":
+                return [1]  # wrong-typed for every primitive class, and unhashable
             return (self.RIGHT if self.mode["v"] == "right" else self.WRONG)[self.name]
 
         self.m = deserialization_method(self.cls, coerce=coercer)
-        from typing import List
+        from typing import List, Literal, Optional
 
         self.ml = deserialization_method(List[self.cls], coerce=coercer)
+        # the same coercer behind a Literal of that class and behind Optional (round 4)
+        self.shapes = {"plain": (self.m, lambda x: x), "list": (self.ml, lambda x: [x])}
+        if self.name != "NoneType":
+            self.shapes["literal"] = (deserialization_method(Literal[self.RIGHT[self.name]], coerce=coercer), lambda x: x)
+            self.shapes["optional"] = (deserialization_method(Optional[self.cls], coerce=coercer), lambda x: x)
         self.VE = VE
         self.bounds = bounds_of(job)
         self.functions = ["apischema.deserialization.methods.CoercerMethod.deserialize"] + method_classes(self_of(self.m))
@@ -289,19 +296,33 @@ class Custom:
         g = Gen.__new__(Gen)
         g.ctx, g.b, g.budget = ctx, self.bounds, 1
         d = g.shallow(ctx.pick(KINDS, "kind"))
-        self.mode["v"] = "right" if ctx.flag("right") else "wrong"
-        in_list = ctx.flag("list")
+        self.mode["v"] = ctx.pick(["right", "wrong", "unhashable"], "mode")
+        shape = ctx.pick(sorted(self.shapes), "shape")
+        method, wrap = self.shapes[shape]
+        in_list = shape == "list"
         ctx.witness = [d] if in_list else d
         ctx.run_phase()
+        if shape == "optional" and d is None:
+            raise Assume("None is a value of Optional: the coercer is not consulted")
+        if shape == "literal":
+            # a Literal looks the datum up first: the coercer is consulted only for a hashable
+            # datum that is not one of the values (1 == 1.0 == True identify with 7 never, with
+            # 1.5 / True / 's' only themselves)
+            if isinstance(d, (list, dict)):
+                raise Assume("unhashable datum: refused as ill-typed before any coercion")
+            if d == self.RIGHT[self.name]:
+                raise Assume("the datum is the literal value itself")
         try:
-            r = self.ml([d]) if in_list else self.m(d)
+            r = method(wrap(d))
             ok = True
         except self.VE:
             ok = False
         except Exception as e:
             return Failure("crash", type(e).__name__, witness=ctx.witness, extra={"exc": type(e).__name__})
         ctx.notes["tag:" + self.mode["v"]] = True
-        if self.mode["v"] == "wrong" and ok:
+        if self.mode["v"] == "unhashable":
+            ctx.notes["tag:wrong"] = True
+        if self.mode["v"] in ("wrong", "unhashable") and ok:
             return Failure("wrong-typed-coercer-result-accepted", witness=ctx.witness, extra={"result": r})
         if self.mode["v"] == "right":
             exp = self.RIGHT[self.name]
